@@ -36,14 +36,16 @@ def run(tier):
                      "real libtbb is not instrumented; its internals are trusted, parmcb's task bodies are instrumented",
                      "'valid input' = the exact domain of C01 (simple graphs, positive weights)"]
     b = builds()
+    c.builds_done()
     t = tier == "thorough"
     env = dict(vlib.SAN_ENV)
     allv = "signed,fvs,iso,signed_tbb,fvs_tbb,iso_tbb"
     plan = [
+        ("approx_asan", "approximate variants + spanner on large families (hubs, long BFS frontiers)", [["--families", LARGE, "--alpha", a, "--ks", "1,2,3,4,n+1"] for a in ("U", "M3")], {}),
         ("exact_asan", "exact variants (seq + real oneTBB), G(0..4) x A2, double+int", [["--n", n, "--alpha", "A2", "--variants", allv, "--workers", 8] for n in range(0, 5)] + [["--n", 4, "--alpha", "A2", "--wtype", "int"]], {}),
         ("exact_asan", "exact variants, G(5) x U and blob grammar", [["--n", 5, "--alpha", "U", "--variants", allv, "--workers", 8], ["--grammar", "blobs:2:2", "--alpha", "M2"]], {"VR_LEAK_EVERY": "16"}),
         ("approx_asan", "approximate variants + spanner, G(0..4) x A2, k in {0,1,2,3,n+1}", [["--n", n, "--alpha", "A2", "--ks", "0,1,2,3,n+1"] for n in range(0, 5)], {}),
-        ("approx_asan", "approximate variants, G(5) x U and large families", [["--n", 5, "--alpha", "U", "--ks", "1,2,3"], ["--families", LARGE, "--alpha", "M3", "--ks", "1,2,3,4,n+1"]], {}),
+        ("approx_asan", "approximate variants, G(5) x U", [["--n", 5, "--alpha", "U", "--ks", "1,2,3"]], {}),
         ("components_asan", "SPTree / greedy_fvs / collections / ForestIndex, G(0..5) x U, G(4) x A2, blob grammar", [["--comp", cmp, "--n", n, "--alpha", "U"] for cmp in ("sptree", "fvs", "collections", "forest") for n in (0, 1, 2, 5)]
          + [["--comp", cmp, "--n", 4, "--alpha", "A2"] for cmp in ("sptree", "collections")] + [["--comp", cmp, "--grammar", "blobs:2:2"] for cmp in ("fvs", "forest")], {"VR_LEAK_EVERY": "16"}),
         ("components_asan", "components on large families", [["--comp", cmp, "--families", LARGE, "--alpha", "U"] for cmp in ("fvs", "forest")], {}),
